@@ -196,6 +196,17 @@ func (ex *Exec) finish(st *State, fr *Frame, res Value) {
 		return
 	}
 	ex.event(st, &Event{Callee: "return", Args: fr.Args, Results: tupleElems(res), Fn: fr.Fn, Kind: "return"})
+	if currentTier == "thorough" && ex.returnCovers[fr.Fn] < 4 {
+		// vacuity guard of the thorough tier: under everything that was assumed on the way (precondition, loop
+		// invariants after a cut, postconditions of applied contracts, dependency models) at least one return of the
+		// function must be reachable - otherwise its postconditions hold for no execution at all. Up to four returning
+		// paths are tried; the obligation is met when one of them is satisfiable.
+		if ex.returnCovers == nil {
+			ex.returnCovers = map[*ssa.Function]int{}
+		}
+		ex.returnCovers[fr.Fn]++
+		ex.Obls = append(ex.Obls, &Obligation{Name: ex.fnName(fr.Fn) + "/cover/a-return-is-reachable", Kind: "cover", Goal: TFalse, PC: append([]*Term(nil), st.PC...), Props: ct.Props, Fn: fr.Fn.String()})
+	}
 	names := ex.freeVarNames(st, fr, ex.paramNames(fr.Fn, fr.Args, res, true))
 	for i, en := range ct.Ensures {
 		if en.Assumed {
